@@ -41,6 +41,7 @@ fn main() {
         "cli" => cli::handle,
         "prep" => |t| front::prep(&t[1..]),
         "diags" => |t| front::diags(&t[1..]),
+        "lookup" => |t| front::lookup(&t[1..]),
         "dump" => |t| dump::dump(&t[1..]),
         "visit" => |t| dump::visit(&t[1..]),
         "emit" => |t| front::emit(&t[1..]),
